@@ -13,8 +13,9 @@
    * C07_wf_out_TEMPLATEStateMachine_py / _h, C07_fixed_point_shipped_py / _h: the same for the whole shipped files TEMPLATEStateMachine.py and
      TEMPLATEStateMachine.h (transition blocks, per-event signature blocks with the signature oracle, initial-state lines, the transition-table
      line).  All their USER tags are fixed text, so the cleaned names are distinct for every element record (C07_keys_unique_TEMPLATEStateMachine_py / _h);
-     names_ok_py / names_ok_h: every name a non-empty alphanumeric word AND the output lines of those four kinds of items under the element record
-     are plain well-formed lines (dyn_lines_plain: computed per case, not derived from the names -- they depend on the oracle's strings).
+     names_ok_py / names_ok_h (= names_ok_x, syntactic): every name a non-empty alphanumeric word; the initial state, the names and values of the
+     per-state transition lists, the cells of the table rows and the oracle's signature strings free of '{', backslash and CR.  C07_dyn_plain_of_names:
+     then the output chunks of those four kinds of items are plain chunks (through the reference expansion, paren_clean and the sml table printer).
    * C07_tags_consumed_shipped(_user): the generator-tag half for every shipped file inside the block grammar (C07_shipped_files_in_grammar)
      (TEMPLATEReceiver.h and TEMPLATETransmitter.h carry no USER tag; their lines contain '{' next to name tags, which the
      simple "no brace on a line with a name tag" criterion of in_grammar07 does not admit: wf_fresh_file is not proved for them).
@@ -30,7 +31,7 @@ From Coq Require Import String Ascii List Bool.
 From KV Require Import Lib.Str Lib.ODict Model.PreserveCore Model.Preserve Model.TagShape
                        Gen.Tags Gen.Templates Gen.Vocab Proofs.PreserveStr Proofs.TagShapeProofs
                        Model.Engine Model.EngineSM Model.EngineDomain Model.EngineDomain16 Model.Parse16 Spec.RefExpand Spec.RefExpand16
-                       Model.EngineDomain07 Proofs.Shipped16 Proofs.Shipped07 Proofs.Shipped07Cpp Proofs.Shipped07Cs Proofs.Shipped07X Proofs.PreserveTop.
+                       Model.EngineDomain07 Proofs.Shipped16 Proofs.Shipped07 Proofs.Shipped07Cpp Proofs.Shipped07Cs Proofs.Dyn07 Proofs.Shipped07X Proofs.PreserveTop.
 Import ListNotations.
 Open Scope string_scope.
 
@@ -237,6 +238,15 @@ Theorem C07_fresh_of_template_x : forall e t,
 Proof. exact fresh_of_template_x. Qed.
 Print Assumptions C07_fresh_of_template_x.
 
+(* dyn_lines_plain follows from the names: if the literal pieces of the transition blocks / signature blocks / initial-state lines / table-line prefix of
+   the template are free of '{', backslash and CR (dyn_ok07, computed on the template) and so are the states, events, initial state, the names and
+   values of the per-state transition lists, the cells of the table rows and both signature strings of every event of the oracle (dyn_names_ok,
+   syntactic), then every chunk those items put out -- through subst16 / subst_any with alternative texts, EngineSM.paren_clean and the boost::sml
+   printer EngineSM.sml_print with its padding and right-stripping -- is free of them and ends with LF, hence is a plain chunk *)
+Theorem C07_dyn_plain_of_names : forall e t, dyn_ok07 t = true -> dyn_names_ok e = true -> dyn_lines_plain e t = true.
+Proof. exact dyn_plain_of_names. Qed.
+Print Assumptions C07_dyn_plain_of_names.
+
 (* strip: the file's items without the empty-string entries the first filtering leaves (TEMPLATEStateMachine.h has one); the written text is the same *)
 Theorem C07_strip_same_text : forall e t, ref16 e (strip t) = ref16 e t.
 Proof. exact ref16_strip. Qed.
@@ -250,9 +260,9 @@ Theorem C07_keys_unique_TEMPLATEStateMachine_h : forall e, NoDup (keys07 e (stri
 Proof. exact nodup_keys_h. Qed.
 Print Assumptions C07_keys_unique_TEMPLATEStateMachine_h.
 
-(* for EVERY model (with its signature oracle if_sigs) and EVERY assignment a of user tags with names_ok_py (alphanumeric names; plain output lines of the
-   transition / signature blocks, initial-state lines, table line), the user line's output plain, and the C16 admission of the file (wf_elements16, computed):
-   what smgen.Generate writes for TEMPLATEStateMachine.py is createoutput of a well-formed fresh file *)
+(* for EVERY model (with its signature oracle if_sigs) and EVERY assignment a of user tags with the syntactic names_ok_py (= names_ok_x: alphanumeric names;
+   initial state, transition lists, table cells, oracle strings free of '{', backslash, CR), the user line's output plain (user_lines_plain, computed), and the
+   C16 admission of the file (wf_elements16, computed): what smgen.Generate writes for TEMPLATEStateMachine.py is createoutput of a well-formed fresh file *)
 Theorem C07_wf_out_TEMPLATEStateMachine_py : forall m (a : usertags),
   names_ok_py (with_user a (elements_of_model m)) = true -> user_lines_plain (with_user a (elements_of_model m)) (strip t_py) = true ->
   wf_elements16 t_py (with_user a (elements_of_model m)) = true ->
